@@ -68,13 +68,13 @@ def check_field(prop, tier, seed, work, t0):
     res = vfw.Results()
     th = tier == "thorough"
     if prop == "C01":
-        a_prod = ["--random", scaled(tier, 200000000, 20000000000), "--sparse", scaled(tier, 4000000, 40000000)]
+        a_prod = ["--random", scaled(tier, 200000000, 60000000000), "--sparse", scaled(tier, 4000000, 200000000)]
         a_asan = ["--random", scaled(tier, 4000000, 200000000), "--sparse", scaled(tier, 400000, 4000000)]
     elif prop == "C10":
-        a_prod = ["--random", scaled(tier, 8000000, 1000000000)]
+        a_prod = ["--random", scaled(tier, 8000000, 3000000000)]
         a_asan = ["--random", scaled(tier, 800000, 20000000)]
     else:
-        a_prod = ["--random", scaled(tier, 6000000, 100000000), "--strings", scaled(tier, 300000, 6000000)]
+        a_prod = ["--random", scaled(tier, 6000000, 500000000), "--strings", scaled(tier, 300000, 20000000)]
         a_asan = ["--random", scaled(tier, 600000, 6000000), "--strings", scaled(tier, 30000, 300000), "--int32", "sampled"]
     res.merge(vfw.run_shards(work, bins["fieldops-prod"], prop, tier, seed, NCPU, a_prod, tag="prod", timeout=7200 if th else 1500))
     res.merge(vfw.run_shards(work, bins["fieldops-asan"], prop, tier, seed + 1000003, NCPU, a_asan, tag="asan", timeout=7200 if th else 1500))
@@ -123,11 +123,11 @@ def check_vec(prop, tier, seed, work, t0):
     res = vfw.Results()
     th = tier == "thorough"
     if prop in ("C02", "C11"):
-        a_prod = ["--random", scaled(tier, 200000000, 20000000000)]
+        a_prod = ["--random", scaled(tier, 200000000, 30000000000)]
         a_asan = ["--random", scaled(tier, 2000000, 100000000)]
         required, rule = LANE_REQUIRED + (["lane:load_store_512_checked"] if is512 else []), LANE_RULE
     else:
-        a_prod = ["--trials", scaled(tier, 10000000, 500000000)]
+        a_prod = ["--trials", scaled(tier, 10000000, 2000000000)]
         a_asan = ["--trials", scaled(tier, 100000, 4000000)]
         required, rule = MAT_REQUIRED, MAT_RULE
     res.merge(vfw.run_shards(work, bins["vecops-prod" + sfx], prop, tier, seed, NCPU, a_prod, tag="prod" + sfx, timeout=7200 if th else 1500))
@@ -194,13 +194,13 @@ def check_ntt(prop, tier, seed, work, t0):
     res = vfw.Results()
     to = 10800 if th else 1500
     if prop == "C19":
-        res.merge(vfw.run_shards(work, bins["ntt-shim"], prop, tier, seed, NCPU, ["--sequences", scaled(tier, 3000, 40000)], tag="shim-seq", timeout=to))
+        res.merge(vfw.run_shards(work, bins["ntt-shim"], prop, tier, seed, NCPU, ["--sequences", scaled(tier, 3000, 300000), "--hist_smax", scaled(tier, 7, 11)], tag="shim-seq", timeout=to))
         res.merge(vfw.run_shards(work, bins["ntt-prod"], prop, tier, seed + 7, 8, ["--sequences", scaled(tier, 300, 3000)], tag="libgomp", timeout=to))
         res.merge(vfw.run_shards(work, bins["ntt-asan"], prop, tier, seed + 13, NCPU, ["--sequences", scaled(tier, 500, 6000)], tag="asan", timeout=to))
     else:
-        grid = {"C03": ["--smax", scaled(tier, 6, 9), "--dmax", scaled(tier, 13, 20), "--large", scaled(tier, 200, 2000), "--thin", "1"],
-                "C04": ["--smax", scaled(tier, 6, 9), "--dmax", scaled(tier, 13, 20), "--large", scaled(tier, 200, 2000), "--thin", "1"],
-                "C05": ["--emax", scaled(tier, 6, 10), "--elarge", scaled(tier, 12, 20), "--large", scaled(tier, 150, 1500), "--thin", scaled(tier, 2, 1)]}[prop]
+        grid = {"C03": ["--smax", scaled(tier, 6, 11), "--dmax", scaled(tier, 13, 20), "--large", scaled(tier, 200, 8000), "--thin", "1"],
+                "C04": ["--smax", scaled(tier, 6, 11), "--dmax", scaled(tier, 13, 20), "--large", scaled(tier, 200, 8000), "--thin", "1", "--roundtrips", scaled(tier, 20000, 1000000)],
+                "C05": ["--emax", scaled(tier, 6, 11), "--elarge", scaled(tier, 12, 20), "--large", scaled(tier, 150, 5000), "--thin", scaled(tier, 2, 1)]}[prop]
         res.merge(vfw.run_shards(work, bins["ntt-shim"], prop, tier, seed, NCPU, grid, tag="shim-seq", timeout=to))
         res.merge(vfw.run_shards(work, bins["ntt-prod"], prop, tier, seed, 8, grid + ["--slice", "20", "--linearity", "0", "--roundtrips", scaled(tier, 2000, 20000), "--d22", "0"],
                                  tag="libgomp", timeout=to))
@@ -256,10 +256,10 @@ def check_poseidon(prop, tier, seed, work, t0):
     to = 10800 if th else 1500
     res = vfw.Results()
     if prop == "C06":
-        a = {"prod": ["--states", scaled(tier, 800000, 60000000)], "prod512": ["--states", scaled(tier, 800000, 60000000)],
+        a = {"prod": ["--states", scaled(tier, 800000, 100000000)], "prod512": ["--states", scaled(tier, 800000, 100000000)],
              "asan": ["--states", scaled(tier, 40000, 1000000)], "asan512": ["--states", scaled(tier, 40000, 1000000)]}
     elif prop == "C07":
-        a = {"prod": ["--contents", scaled(tier, 48, 2400)], "prod512": ["--contents", scaled(tier, 48, 2400)],
+        a = {"prod": ["--contents", scaled(tier, 48, 12000)], "prod512": ["--contents", scaled(tier, 48, 12000)],
              "asan": ["--contents", scaled(tier, 8, 100)], "asan512": ["--contents", scaled(tier, 8, 100)]}
     else:
         a = {"prod": ["--thin", scaled(tier, 6, 2)], "prod512": ["--thin", scaled(tier, 4, 1)],
@@ -297,7 +297,7 @@ def check_cubic(prop, tier, seed, work, t0):
                                  {"name": "cubic-asan", "flavour": "asan", "srcs": [H("cubic.cpp")], "libsrcs": libs}])
     th = tier == "thorough"
     res = vfw.Results()
-    res.merge(vfw.run_shards(work, bins["cubic-prod"], prop, tier, seed, NCPU, [], tag="prod", timeout=7200 if th else 1500))
+    res.merge(vfw.run_shards(work, bins["cubic-prod"], prop, tier, seed, NCPU, ["--random", scaled(tier, 30000000, 3000000000)], tag="prod", timeout=10800 if th else 1500))
     res.merge(vfw.run_shards(work, bins["cubic-asan"], prop, tier, seed + 1000003, NCPU, ["--random", scaled(tier, 1000000, 30000000), "--boundary_step", scaled(tier, 16, 4)],
                              tag="asan", timeout=7200 if th else 1500))
     extra = {"boundary_family_exhaustive": res.counters.get("family:boundary_triples_exhaustive_shards", 0) >= NCPU}
